@@ -41,6 +41,8 @@ two equivalent forms the rules get to see, so soundness never depends on the ref
   S25 if A or B: JUMP     ->  if A: JUMP   if B: JUMP   a disjunctive guard whose body is a single jump, split when the reference
                                                       function tests one of the disjuncts on its own
   S26 if A and B: BODY    ->  if A: if B: BODY        (no else) when the reference function tests A on its own
+  S27 f"{a}\t{b}\n"       ->  str(a) + '\t' + str(b) + '\n'      an f-string without format specs that the reference function does not have
+  S28 for i, x in enumerate(X, k)  ->  i = k; for x in X: ...; i += 1   where the reference loop over X binds only x (manual counter form)
   S12 a = ..; b = ..      ->  b = ..; a = ..          adjacent call-free assignments without data dependence are put in the
                                                       order the reference function has them in
 
@@ -104,6 +106,8 @@ def shapes_of(fn):
         if isinstance(n, ast.For):
             fors.append([U(n.iter), U(n.target)])
         if isinstance(n, (ast.ListComp, ast.SetComp, ast.DictComp, ast.GeneratorExp)):
+            comps.add(U(n))
+        if isinstance(n, ast.JoinedStr):
             comps.add(U(n))
     return {'cmp': sorted(cmp_), 'tests': sorted(tests), 'aug': sorted(augs), 'subs': sorted(subs), 'calls': sorted(calls),
             'else': els, 'stmts': stmts, 'for': fors, 'comps': sorted(comps),
@@ -256,6 +260,27 @@ class _Canon(ast.NodeTransformer):
                     self.steps.append('S8 %s -> %s' % (U(n), U(alt)))
                     return alt
         return n
+
+    def visit_JoinedStr(self, n):
+        self.generic_visit(n)
+        if U(n) in self.comps:
+            return n
+        parts = []
+        for v in n.values:
+            if isinstance(v, ast.Constant) and isinstance(v.value, str):
+                if v.value != '':
+                    parts.append(v)
+            elif isinstance(v, ast.FormattedValue) and v.format_spec is None and v.conversion in (-1, 115):
+                parts.append(ast.Call(func=ast.Name(id='str', ctx=ast.Load()), args=[v.value], keywords=[]))
+            else:
+                return n
+        if not parts:
+            return n
+        out = parts[0]
+        for p_ in parts[1:]:
+            out = ast.BinOp(left=out, op=ast.Add(), right=p_)
+        self.steps.append('S27 ' + U(n)[:50])
+        return _relocate(out, n)
 
     def visit_UnaryOp(self, n):
         self.generic_visit(n)
@@ -1124,8 +1149,21 @@ def fold_unpacked_loop_targets(rel, module):
                     if ename in used and ename not in [e.id for e in tup.elts]:
                         good = False
                         break
-                    if any(stores.get(e.id, 0) != 1 for e in tup.elts):
-                        good = False
+                    end_ = getattr(loop, 'end_lineno', loop.lineno)
+                    for e in tup.elts:
+                        if stores.get(e.id, 0) == 1:
+                            continue
+                        # bound elsewhere too: acceptable if not re-bound inside this loop and never read after the loop before being
+                        # bound again
+                        inner_st = [x for b_ in loop.body + loop.orelse for x in ast.walk(b_)
+                                    if isinstance(x, ast.Name) and x.id == e.id and isinstance(x.ctx, (ast.Store, ast.Del))]
+                        if inner_st:
+                            good = False
+                        later = sorted((x.lineno, x.col_offset, isinstance(x.ctx, ast.Load)) for x in ast.walk(fn)
+                                       if isinstance(x, ast.Name) and x.id == e.id and x.lineno > end_)
+                        if later and later[0][2]:
+                            good = False
+                    if not good:
                         break
                     plan.append((tup, ename, k))
                 if not good:
@@ -1308,4 +1346,90 @@ def expand_iter_sentinel_loops(rel, module):
                     k = [j for j, x in enumerate(blk) if x is st][0]
                     blk[k:k + 1] = [first, loop]
                     done.setdefault(lname, []).append(v)
+    return done
+
+
+# ---------------------------------------------------------------------------------------------------------------
+def expand_enumerate_counters(rel, module):
+    """Step S28: `for i, x in enumerate(X, k)` (k a constant, default 0) -> `i = k` + `for x in X:` + `i += 1` at the end of the body
+    (and before every `continue` of that loop), when the reference function loops over X with the target x alone."""
+    ref = refshapes()
+    done = {}
+    for lname, fn in list(module.funcs.items()):
+        r = ref.get(rel + '::' + lname)
+        if not r or not r.get('for'):
+            continue
+        ref_for = {}
+        for it, tg in r['for']:
+            ref_for.setdefault(it, []).append(tg)
+        nstores = {}
+        for n in ast.walk(fn):
+            if isinstance(n, ast.Name) and isinstance(n.ctx, (ast.Store, ast.Del)):
+                nstores[n.id] = nstores.get(n.id, 0) + 1
+        for owner in ast.walk(fn):
+            for field in ('body', 'orelse', 'finalbody'):
+                blk = getattr(owner, field, None)
+                if not (isinstance(blk, list) and blk and isinstance(blk[0], ast.stmt)):
+                    continue
+                for st in list(blk):
+                    if not (isinstance(st, ast.For) and not st.orelse and isinstance(st.iter, ast.Call) and isinstance(st.iter.func, ast.Name)
+                            and st.iter.func.id == 'enumerate' and st.iter.args and isinstance(st.target, ast.Tuple)
+                            and len(st.target.elts) == 2 and isinstance(st.target.elts[0], ast.Name)):
+                        continue
+                    inner_it = U(st.iter.args[0])
+                    elem = st.target.elts[1]
+                    if inner_it not in ref_for or U(elem) not in ref_for[inner_it]:
+                        continue
+                    start = None
+                    if len(st.iter.args) == 2:
+                        start = st.iter.args[1]
+                    for k in st.iter.keywords:
+                        if k.arg == 'start':
+                            start = k.value
+                    if start is None:
+                        start = ast.Constant(value=0)
+                    if not isinstance(start, ast.Constant) or not isinstance(start.value, int):
+                        continue
+                    i = st.target.elts[0].id
+                    if nstores.get(i, 0) != 1:
+                        continue
+
+                    def inc():
+                        return ast.AugAssign(target=ast.Name(id=i, ctx=ast.Store()), op=ast.Add(), value=ast.Constant(value=1))
+
+                    def fix(body):
+                        out = []
+                        for x in body:
+                            if isinstance(x, ast.Continue):
+                                out.append(_relocate(inc(), x))
+                                out.append(x)
+                                continue
+                            if isinstance(x, (ast.For, ast.While, ast.FunctionDef, ast.ClassDef)):
+                                out.append(x)
+                                continue
+                            for f2 in ('body', 'orelse', 'finalbody'):
+                                sub = getattr(x, f2, None)
+                                if isinstance(sub, list) and sub and isinstance(sub[0], ast.stmt):
+                                    setattr(x, f2, fix(sub))
+                            for h in getattr(x, 'handlers', []) or []:
+                                h.body = fix(h.body)
+                            out.append(x)
+                        return out
+                    init = ast.Assign(targets=[ast.Name(id=i, ctx=ast.Store())], value=start)
+                    _relocate(init, st)
+                    last = inc()
+                    ast.fix_missing_locations(last)
+                    for x in ast.walk(last):
+                        x.lineno = getattr(st, 'end_lineno', st.lineno)
+                        x.end_lineno = x.lineno
+                        x.col_offset = 0
+                        x.end_col_offset = 0
+                    st.body = fix(st.body) + [last]
+                    st.target = elem
+                    st.iter = st.iter.args[0]
+                    k = [j for j, x in enumerate(blk) if x is st][0]
+                    blk.insert(k, init)
+                    done.setdefault(lname, []).append(i)
+        if lname in done:
+            ast.fix_missing_locations(fn)
     return done
